@@ -661,6 +661,12 @@ def run_scenario(stg, driver, unicode_path, steps, oracles=(), tag="h", keep_goi
                         result["oracle_failures"].append({"step": i, "cmd": c, "why": f, "exit": rexit,
                                                           "stderr": stderr[-300:]})
                 d = diff(rc, mc)
+                if d and "merge-recursive" in stderr and "local changes" in stderr:
+                    # merge-recursive refusing to touch locally modified files during the
+                    # work-tree merge of a push is outside the model (recorded, not compared);
+                    # the direct oracles above still judged the real outcome
+                    result["out_of_model"] = {"step": i, "cmd": c, "stderr": stderr[-200:]}
+                    break
                 if d and result["mismatch"] is None:
                     result["mismatch"] = {"step": i, "cmd": c, "diff": d, "impl_exit": rexit,
                                           "model_exit": mexit, "stderr": stderr[-400:]}
